@@ -250,4 +250,58 @@ inductive CCfg.Reach (c : CCfg) : CSt → Prop
 
 def CCfg.final (s : CSt) : Bool := s.mph == .done
 
+/-! ## jobs without scatter (`need_scatter = false`), every strategy
+
+The workers run `_work_no_scatter`: no fence is touched, only `combine()` under `_thread_mutex`.  The master
+(`assemble()`, which switches on `need_scatter ? strategy : single`) opens the front fence and joins. -/
+
+structure NCfg where
+  n : Nat
+  comb : Bool
+
+structure NSt where
+  front : Bool         -- fence 0
+  mph : Ph             -- master: `front` → `back` → `done`
+  ph : Nat → Ph        -- workers: `preComb` → `inComb` → `done` (or `done` at once without combine)
+  mutex : Bool
+
+def NCfg.init (c : NCfg) : NSt :=
+  { front := false, mph := .front, ph := fun _ => if c.comb then .preComb else .done, mutex := false }
+
+def NCfg.allDone (c : NCfg) (s : NSt) : Bool := (List.range c.n).all fun k => s.ph (k + 1) == .done
+
+def NCfg.next (c : NCfg) (s : NSt) (t : Nat) : Option Ev :=
+  if t = 0 then
+    match s.mph with
+    | .front => some (.fopen 0 0)
+    | .back => some .join
+    | _ => none
+  else if c.n < t then none
+  else
+    match s.ph t with
+    | .preComb => some (.center t)
+    | .inComb => some (.cleave t)
+    | _ => none
+
+def NCfg.enabled (c : NCfg) (s : NSt) : Ev → Bool
+  | .center _ => !s.mutex
+  | .join => c.allDone s
+  | _ => true
+
+def NCfg.apply (_c : NCfg) (s : NSt) : Ev → NSt
+  | .fopen _ _ => { s with front := true, mph := .back }
+  | .center t => { s with ph := updP s.ph t .inComb, mutex := true }
+  | .cleave t => { s with ph := updP s.ph t .done, mutex := false }
+  | .join => { s with mph := .done }
+  | _ => s
+
+def NCfg.step (c : NCfg) (s : NSt) (e : Ev) : Option NSt :=
+  if c.next s e.thread = some e ∧ c.enabled s e = true then some (c.apply s e) else none
+
+inductive NCfg.Reach (c : NCfg) : NSt → Prop
+  | init : NCfg.Reach c c.init
+  | step {s s' : NSt} (e : Ev) : NCfg.Reach c s → c.step s e = some s' → NCfg.Reach c s'
+
+def NCfg.final (s : NSt) : Bool := s.mph == .done
+
 end FeatModel.DA
